@@ -500,6 +500,7 @@ class Sim(World):
         self.cov = collections.Counter()
         self.deliveries = []         # (at, source key, true origin, member?) for the monitors
         self.alive = [True] * n
+        self.tainted = set()         # (i, j): somebody who is not j told i "I am j" although i dials j (outside C14)
 
     # ---- model lines ---------------------------------------------------------------------------
     def init_line(self, i):
@@ -672,6 +673,10 @@ class Sim(World):
         q = w.inflight[side]
         if not q:
             return None
+        if dst.kind == "connecting":
+            return None               # its owner has not processed the connect yet: that event comes first
+        if any(dst in l.acceptq for l in self.fabric.listeners.values()):
+            return None               # still in the accept backlog: the data waits in the kernel
         moved = []
         while q and k > 0:
             k -= 1
@@ -692,7 +697,10 @@ class Sim(World):
         if cid is None:
             self.cov["deliver.noconn"] += 1
             return []
-        msgs = []
+        # complete frames left in the read buffer by an earlier event that ended in an exception come first
+        msgs = split_frames(self.conn_objs[i][cid]._TcpConnection__readBuffer)
+        if msgs:
+            self.cov["deliver.leftover"] += 1
         term = None
         for it in moved:
             if it is None:
@@ -794,6 +802,9 @@ class Sim(World):
         if w.ends[0].closed:
             return None
         w.inflight[0].append(frame(self.mkmsg(mk)))
+        i = w.ends[1].owner
+        if mk[0] == "addr" and (i in self.readonly or i > mk[1]):
+            self.tainted.add((i, mk[1]))
         self.cov["stranger.msg." + mk[0]] += 1
         return []
 
@@ -862,6 +873,12 @@ class Sim(World):
                     v.append({"signature": "transport.notify:reported-connected-without-connection",
                               "what": "transport %d: last notification for %s is 'connected' (isNodeConnected would be "
                                       "True) but there is no CONNECTED registered connection" % (i, b)})
+                else:
+                    sk = conn._TcpConnection__socket
+                    if sk is not None and getattr(sk, "kind", "") == "connecting":
+                        v.append({"signature": "transport.notify:reported-connected-while-connecting",
+                                  "what": "transport %d: %s is reported connected and send() returns True, but the "
+                                          "socket of the registered connection is still connecting" % (i, b)})
         return v
 
     def monitor_deliveries(self):
